@@ -5,12 +5,29 @@
  *   WALRUS_FAULT_CREATE=1  open / openat / creat with O_CREAT fail with EACCES
  *   WALRUS_FAULT_RENAME=1  rename / renameat fail with EIO                                                     */
 #define _GNU_SOURCE
+#include <sys/syscall.h>
 #include <dlfcn.h>
 #include <errno.h>
 #include <fcntl.h>
 #include <stdarg.h>
 #include <stdlib.h>
 #include <sys/types.h>
+#include <stdio.h>
+#include <unistd.h>
+/* WALRUS_TRACE_FILE=<path>: append one line per pwrite ("W <file> <off> <len>") and per fsync/fdatasync ("F <file>") */
+static void trace_fd(const char *tag, int fd, long long off, long long len) {
+    const char *t = getenv("WALRUS_TRACE_FILE");
+    if (!t) return;
+    char link[64], path[512];
+    snprintf(link, sizeof link, "/proc/self/fd/%d", fd);
+    ssize_t n = readlink(link, path, sizeof path - 1);
+    if (n <= 0) return;
+    path[n] = 0;
+    char line[700];
+    int m = snprintf(line, sizeof line, "%s %s %lld %lld\n", tag, path, off, len);
+    long tfd = syscall(SYS_open, t, O_WRONLY | O_CREAT | O_APPEND, 0644);
+    if (tfd >= 0) { (void)!syscall(SYS_write, tfd, line, (size_t)m); syscall(SYS_close, tfd); }
+}
 
 #include <string.h>
 /* value "1": every call fails; value "s<K>": the first K calls after the variable got this value succeed, later ones fail */
@@ -29,12 +46,14 @@ int fsync(int fd) {
     static int (*real)(int) = 0;
     if (!real) real = dlsym(RTLD_NEXT, "fsync");
     if (on("WALRUS_FAULT_FSYNC")) { errno = EIO; return -1; }
+    trace_fd("F", fd, 0, 0);
     return real(fd);
 }
 int fdatasync(int fd) {
     static int (*real)(int) = 0;
     if (!real) real = dlsym(RTLD_NEXT, "fdatasync");
     if (on("WALRUS_FAULT_FSYNC")) { errno = EIO; return -1; }
+    trace_fd("F", fd, 0, 0);
     return real(fd);
 }
 int open(const char *path, int flags, ...) {
@@ -98,12 +117,14 @@ ssize_t pwrite(int fd, const void *buf, size_t n, off_t off) {
     static ssize_t (*real)(int, const void *, size_t, off_t) = 0;
     if (!real) real = dlsym(RTLD_NEXT, "pwrite");
     crash_point();
+    trace_fd("W", fd, (long long)off, (long long)n);
     return real(fd, buf, n, off);
 }
 ssize_t pwrite64(int fd, const void *buf, size_t n, off64_t off) {
     static ssize_t (*real)(int, const void *, size_t, off64_t) = 0;
     if (!real) real = dlsym(RTLD_NEXT, "pwrite64");
     crash_point();
+    trace_fd("W", fd, (long long)off, (long long)n);
     return real(fd, buf, n, off);
 }
 long syscall(long nr, ...) {
